@@ -82,6 +82,9 @@ mod inner {
         pub fn retain_non_zero(&mut self) {
             self.inner.retain(|e| likely(e.is_value()));
 
+            // Only values remain so each entry is exactly one element
+            self.len = self.inner.len();
+
             #[cfg(debug_assertions)]
             {
                 self.has_zero = false;
